@@ -634,6 +634,9 @@ impl Simulation for C18Sim {
       Err(e) => bad(format!("harness error during replay: {e}")),
     }
   }
+  fn warm_up(&self) {
+    crate::selftest::warm_up();
+  }
   fn describe(&self) -> Describe {
     Describe {
       rule: "a case = (fix-heavy generated project, 0-9 source files, half of the worlds with an HTML file carrying <script>/<style> documents; command scan -U or run -p P -r R [-l L] -U; plan = thread count x scheduling policy x seeded schedule x hash seed x optional write/read fault x 1-3 repeated invocations). Per round: the same command with --json=stream announces edits (replacementOffsets, replacement, document language); reference model = previous bytes with the announced edits applied greedily in start order, all tie orders enumerated; checked: every file's bytes are a model result, files without announced edits are byte-identical, `Applied N changes` equals the edits present, after a write fault the command fails and every other file is fully old or fully new. non-trivial = at least one edit applied and verified in a run with >=1 pre-emption or fired fault; distinct = (command, threads, scheduler event trace) not seen before".into(),
